@@ -45,6 +45,10 @@ def run(repo: Repo, chk: Check) -> None:
     conventions(repo, chk, f)
     get_key(repo, chk)
     store_key(repo, chk)
+    # "for any plaintext (..., >= 64 KiB)": the DER length writer has no capacity limit (C07-O2)
+    from .c07 import header_writer
+
+    header_writer(repo, chk)
     from . import c03
 
     scratch_scope = (chk.scope_decides, chk.scope_not, list(chk.trusted))
